@@ -52,6 +52,8 @@ u8_enum!(FinScript {
     FinalizeAgainG = 11,
     DropG = 12,
     UpgradeWcellIntoCell0 = 13,
+    CollectThenTryUnwrapG = 14,
+    CollectThenFinalizeAgainG = 15,
 });
 
 u8_enum!(DropScript {
@@ -60,6 +62,8 @@ u8_enum!(DropScript {
     Collect = 2,
     TryUnwrapG = 3,
     FinalizeAgainG = 4,
+    CollectThenTryUnwrapG = 5,
+    CollectThenFinalizeAgainG = 6,
 });
 
 u8_enum!(Closure {
@@ -1063,7 +1067,11 @@ fn cb_drop(node: &mut Node) {
         let in_box = id < m.objs.len() && m.objs[id].boxed && !m.objs[id].moved_out && !m.objs[id].cyclic_pending;
         drop(m);
         if in_box && !node.at_home() {
+            v!("C03", "P-once", "destructor run on a bitwise copy of object #{} (the value is dropped a second time)", id);
             v!("C14", "P-cyclic", "destructor run on memory that is not the object itself (uninitialised memory or a stale copy of object #{})", id);
+            if c.stack.borrow().iter().any(|f| matches!(f, Frame::Finalizer(_) | Frame::Destructor(_))) {
+                v!("C12", "P-phase", "a Cc API called from a finalizer or destructor dropped a copy of object #{} instead of leaving it unchanged", id);
+            }
             neutralise(node);
             return;
         }
@@ -1550,6 +1558,14 @@ fn run_fin_script(node: &Node) {
         FinScript::Collect => do_collect(),
         FinScript::TryUnwrapG => script_try_unwrap_g("finalizer"),
         FinScript::FinalizeAgainG => script_finalize_again_g("finalizer"),
+        FinScript::CollectThenTryUnwrapG => {
+            do_collect();
+            script_try_unwrap_g("finalizer (after a collect_cycles() call)");
+        },
+        FinScript::CollectThenFinalizeAgainG => {
+            do_collect();
+            script_finalize_again_g("finalizer (after a collect_cycles() call)");
+        },
         FinScript::DropG => {
             let taken = c.g.borrow_mut().take();
             if let Some(cc) = taken {
@@ -1591,6 +1607,14 @@ fn run_drop_script(node: &Node) {
         DropScript::Collect => do_collect(),
         DropScript::TryUnwrapG => script_try_unwrap_g("destructor"),
         DropScript::FinalizeAgainG => script_finalize_again_g("destructor"),
+        DropScript::CollectThenTryUnwrapG => {
+            do_collect();
+            script_try_unwrap_g("destructor (after a collect_cycles() call)");
+        },
+        DropScript::CollectThenFinalizeAgainG => {
+            do_collect();
+            script_finalize_again_g("destructor (after a collect_cycles() call)");
+        },
     }
 }
 
